@@ -125,7 +125,27 @@ def configure(L, cfg):
         return UCMM
     if kind == "main":
         return main_config(L, cfg["text"], cfg["simple"])
+    if kind == "file":
+        # a plain UCMM configured from the configuration files' `[UCMM] Route Path`; optionally after another
+        # simulator instance of the same process was configured differently (and torn down)
+        if "prior" in cfg:
+            set_file_config(L, cfg["prior"])
+            L.logix.setup(UCMM_class=L.ucmm.UCMM)
+            L.device.lookup_reset()
+            L.logix.setup_reset()
+        set_file_config(L, cfg["text"])
+        return L.ucmm.UCMM
     raise ValueError(kind)
+
+
+def set_file_config(L, text):
+    """what a configuration file with a `[UCMM]` section holding `Route Path = <text>` loads (None: no entry)"""
+    ld = L.device.Object.config_loader
+    if ld.has_section("UCMM"):
+        ld.remove_section("UCMM")
+    if text is not None:
+        ld.add_section("UCMM")
+        ld.set("UCMM", "Route Path", text)
 
 
 def main_config(L, text, simple):
@@ -181,6 +201,8 @@ def op_request(L, c, op, frag):
                                       tag_type=L.parser.USINT.tag_type, send=False)
     if k == "a":
         return c.get_attributes_all("@1/1", send=False)
+    if k == "f":
+        raise ValueError("a Forward Open is built by client.implicit (build_fwdopen)")
     if k == "u":
         return c.read("Z", elements=1, offset=off, send=False)
     raise ValueError(op)
@@ -219,7 +241,51 @@ def raw_send(L, c, request, segs, wrapper):
     c.cip_send(cip=cip)
 
 
+class _Sent(Exception):
+    pass
+
+
+def build_fwdopen(L, route, send):
+    """the Forward Open frame client.implicit( ..., route_path=, send_path= ) puts on the wire"""
+    cl = L.client
+    sent = []
+
+    def stub_init(self, host, port=None, timeout=None, **kw):
+        self.session, self.profiler, self.dialect, self.udp = 0x1234, None, L.logix.Logix, False
+        self.engine = None
+        self.frame = L.parser.enip_machine(context="enip")
+
+    def stub_await(cli, timeout=None):
+        raise _Sent()
+
+    class Imp(cl.implicit):
+        def send(self, request, timeout=None):
+            sent.append(bytes(request))
+
+    kind = route["kind"]
+    rp = {"default": None, "falsy": False, "text": route.get("text"), "list": None}[kind]
+    if kind == "list":
+        rp = json.loads(route["json"])
+    sp = {"D": "@6/1", "E": "", "O1": "@2/1", "O2": "@6/2", "O3": "@1/1"}[send]
+    saved = cl.connector.__init__, cl.await_response
+    cl.connector.__init__, cl.await_response = stub_init, stub_await
+    try:
+        try:
+            Imp("localhost", route_path=rp, send_path=sp)
+        except _Sent:
+            pass
+        except Exception as exc:
+            raise BuildReject(type(exc).__name__)
+    finally:
+        cl.connector.__init__, cl.await_response = saved
+    if not sent:
+        raise BuildReject("nothing sent")
+    return sent[-1]
+
+
 def build_frame(L, route, send, req, frag=True):
+    if req["ops"] == [["f"]]:
+        return build_fwdopen(L, route, send)
     c = L.Cap()
     try:
         reqs = [op_request(L, c, op, frag) for op in req["ops"]]
@@ -276,7 +342,7 @@ def op_result(op, r):
         return "0:" + fmt_nats(d if d is not None else [])
     if k == "g":
         return "0:" + fmt_nats(r.get("get_attribute_single.data") or [])
-    if k == "a":
+    if k in ("a", "f"):
         return "0:*"
     return "0:-"
 
@@ -388,8 +454,8 @@ def ref_exec(tags, ops):
             tags[a - 1][:] = vs
             res.append("0:-")
             acc.append("%d.s.%d.%d" % (a - 1, 0, len(vs)))
-        elif k == "a":
-            res.append("0:*")
+        elif k in ("a", "f"):
+            res.append("0:*")           # identity data / a connection is set up: no tag is touched
         elif k == "u":
             res.append("nz")          # an unknown tag is answered with a CIP error status; nothing is accessed
     return tags, res, acc
@@ -405,6 +471,10 @@ def spelled_personality(cfg):
     if k == "list":
         segs = [[d["port"], d["link"]] for d in json.loads(cfg["json"])]
         return ("path", segs) if segs else ("simple", None)
+    if k == "file":
+        if cfg["text"] is None:
+            return ("any", None)
+        return ("path", cfg["spelled"]) if cfg.get("spelled") else None
     if k == "main":
         if cfg.get("spelled") is not None:
             return ("path", cfg["spelled"]) if cfg["spelled"] else ("simple", None)
@@ -792,6 +862,33 @@ class C15(Suite):
                         continue
                     yield {"op": "srv", "cfg": cfg, "tags": TAGS0, "route": route, "send": send, "req": req,
                            "frag": bool((k + j) % 2)}
+        # the Forward Open service, as client.implicit( route_path=, send_path= ) issues it
+        FO = {"multi": False, "ops": [["f"]]}
+        fo_routes = [(r, sd) for r, sd in R if r["kind"] in ("text", "list", "falsy") or r == {"kind": "default"}]
+        k = 0
+        for cfg in P:
+            for route, send in fo_routes:
+                k += 1
+                if quick and k % 3 and not (route.get("text") in ("1/0", "1/1") and send == "D"):
+                    continue
+                yield {"op": "srv", "cfg": cfg, "tags": TAGS0, "route": route, "send": send, "req": FO, "frag": True}
+        # personalities read from the configuration files ([UCMM] Route Path) by a plain UCMM, alone or after another
+        # simulator instance of the same process had been configured differently
+        FP = [{"kind": "file", "text": None},
+              {"kind": "file", "text": "1/0", "spelled": [[1, 0]]},
+              {"kind": "file", "text": "1/5", "prior": "1/0", "spelled": [[1, 5]]},
+              {"kind": "file", "text": None, "prior": "1/0"},
+              {"kind": "file", "text": "1/0/2/1.2.3.4", "prior": None, "spelled": [[1, 0], [2, "1.2.3.4"]]},
+              {"kind": "file", "text": '[{"port":2,"link":"10.0.0.1"}]', "prior": "3/7", "spelled": [[2, "10.0.0.1"]]}]
+        k = 0
+        for cfg in FP:
+            for route, send in R:
+                k += 1
+                for j, req in enumerate([S[0]] if quick else [S[0], S[2], S[6], FO]):
+                    if req is FO and not (route["kind"] in ("text", "list", "falsy") or route == {"kind": "default"}):
+                        continue
+                    yield {"op": "srv", "cfg": cfg, "tags": TAGS0, "route": route, "send": send, "req": req,
+                           "frag": bool((k + j) % 2)}
         # the same personalities on a device that ALSO has a routing table: a first hop that is not in the table
         # is a local request and must meet the same route-path test; one that is in it is forwarded
         tables = [[[1, 5]], [[1, 5], [2, "1.2.3.4"], [16, 255]], [[1, 0]], [[2, 0], [1, "1.2.3.5"], [3, 7]]]
@@ -822,8 +919,15 @@ class C15(Suite):
 
     def rand_cfg(self, rng, segs):
         r = rng.random()
-        if r < 0.08:
+        if r < 0.04:
             return {"kind": "any"}
+        if r < 0.1:
+            cfg = {"kind": "file", "text": rng.choice([None, spell_slash(segs), spell_slash(segs)])}
+            if cfg["text"] is not None:
+                cfg["spelled"] = segs
+            if rng.random() < 0.6:
+                cfg["prior"] = rng.choice([None, "1/0", spell_slash(rand_segs(rng, wire=True, lo=1, hi=2))])
+            return cfg
         if r < 0.16:
             return {"kind": "falsy", "value": rng.choice(["False", "0"])}
         if r < 0.2:
@@ -899,6 +1003,8 @@ class C15(Suite):
         multi = len(ops) > 1 or rng.random() < 0.2
         if not multi and rng.random() < 0.03:
             ops = [["u"]]
+        elif not multi and rng.random() < 0.06 and (route["kind"] in ("text", "list", "falsy") or route == {"kind": "default"}):
+            ops = [["f"]]
         return {"op": "srv", "cfg": cfg, "routes": self.rand_table(rng, segs, route), "tags": TAGS0, "route": route,
                 "send": send, "req": {"multi": multi, "ops": ops}, "frag": rng.random() < 0.5}
 
@@ -1027,6 +1133,8 @@ class C15(Suite):
             return "F"
         if k == "list":
             return "L:" + hx(cfg["json"])
+        if k == "file":
+            return "G:" + ("~" if cfg["text"] is None else hx(cfg["text"]))
         return "M:%s:%d" % ("~" if cfg["text"] is None else hx(cfg["text"]), int(cfg["simple"]))
 
     @staticmethod
@@ -1181,6 +1289,7 @@ class C15(Suite):
     def impl_srv(self, L, c):
         L.device.lookup_reset()
         L.logix.setup_reset()
+        set_file_config(L, None)
         try:
             U = with_routes(L, configure(L, c["cfg"]), c.get("routes"))
         except CfgReject:
@@ -1203,6 +1312,7 @@ class C15(Suite):
     def impl_sess(self, L, c):
         L.device.lookup_reset()
         L.logix.setup_reset()
+        set_file_config(L, None)
         try:
             U = with_routes(L, configure(L, c["cfg"]), c.get("routes"))
         except CfgReject:
